@@ -694,7 +694,14 @@ func cmdFacts(repo, outPath, reachPath, aliasPath string) int {
 		}
 	}
 	defer printReachTSV(rf)
-	_ = aliasPath
+	af := computeAliasFacts(runAliasAnalysis(g))
+	if aliasPath != "" {
+		if err := writeIfChanged(aliasPath, renderAliasCoq(af)); err != nil {
+			fmt.Fprintln(os.Stderr, "facts:", err)
+			return 2
+		}
+	}
+	defer printAliasTSV(af)
 	fmt.Printf("STATS\tfiles=%d\tfuncs=%d\tvars=%d\n", stats["files"], stats["funcs"], len(vars))
 	for _, s := range skipped {
 		fmt.Printf("SKIPPED\t%s\n", s)
